@@ -5,6 +5,7 @@ import Walrus.Driver.BodyD
 import Walrus.Driver.CodeD
 import Walrus.Driver.OffsetsD
 import Walrus.Driver.DwarfD
+import Walrus.Driver.ModuleD
 
 open Walrus.Driver
 
@@ -17,6 +18,7 @@ def dispatch (line : String) : String :=
   | "code" :: rest => handleCode rest
   | "offsets" :: rest => handleOffsets rest
   | "dwarf" :: rest => handleDwarf rest
+  | "module" :: rest => handleModule rest
   | _ => "bad-request"
 
 partial def loop (h : IO.FS.Stream) (out : IO.FS.Stream) : IO Unit := do
